@@ -165,6 +165,7 @@ type TLCResult struct {
 	Distinct  int64
 	Depth     int64
 	Verdicts  []string // JSON payloads of VERDICT lines
+	Prints    []string // JSON payloads of SIM lines (simulation mode)
 	Output    string
 	Violated  string // name of a violated invariant/property, if any
 	WallS     float64
@@ -243,6 +244,12 @@ func (e *Env) TLC(mod string, consts map[string]string, workers int, heapMB int,
 				res.Verdicts = append(res.Verdicts, strings.TrimPrefix(s, "VERDICT "))
 			}
 		}
+		if strings.HasPrefix(line, "\"SIM ") {
+			var s string
+			if err := json.Unmarshal([]byte(line), &s); err == nil {
+				res.Prints = append(res.Prints, strings.TrimPrefix(s, "SIM "))
+			}
+		}
 		if m := reStates.FindStringSubmatch(line); m != nil {
 			res.Generated, res.Distinct = atoi(m[1]), atoi(m[2])
 		}
@@ -253,7 +260,7 @@ func (e *Env) TLC(mod string, consts map[string]string, workers int, heapMB int,
 			res.Violated = m[1]
 		}
 	}
-	res.OK = werr == nil && strings.Contains(res.Output, "Model checking completed. No error has been found.")
+	res.OK = werr == nil && (strings.Contains(res.Output, "Model checking completed. No error has been found.") || len(res.Prints) > 0 && res.Violated == "")
 	if !res.OK && res.Violated == "" && werr != nil && !strings.Contains(res.Output, "Error:") {
 		return res, fmt.Errorf("TLC %s failed: %v\n%s", mod, werr, tail(res.Output, 3000))
 	}
